@@ -137,7 +137,7 @@ def oracle_spec(rng, fam, cls, gates, dp_kind, n, length, shots, psi="rand", two
         meas, _ = H.add_measures(rng, ins, labels)
     return {"fam": fam, "cls": cls, "gates": gates, "meas": meas, "labels": labels, "npseed": rng.randrange(2 ** 31),
             "circ": {"nphys": nphys, "nclbits": n, "instrs": ins}, "circ_kind": "qc", "layout": ["list", labels],
-            "psi0": ["rand", 2 ** n, rng.randrange(2 ** 31)] if psi == "rand" else ["basis", 2 ** n],
+            "psi0": ["rand", 2 ** n, rng.randrange(2 ** 31)] if psi == "rand" else (["tiny", 2 ** n, rng.randrange(2 ** 31)] if psi == "tiny" else ["basis", 2 ** n]),
             "shots": ["int", shots], "params": ["ok", dp_kind, nphys, rng.randrange(2 ** 31)], "nqubit": ["int", n]}
 
 
@@ -619,6 +619,9 @@ def gen_oracle_specs(ck):
         for wk in (("weak1e-8", "weak1e-6", "almost") if q else ("weak1e-8", "weak1e-6", "weak1e-10", "weak1e-12", "weak1e-4", "almost", "weak1e-7")):
             n = rng.randint(1, 3)            # barely noisy gate sets: the total before normalisation is close to, but not, one
             specs.append(oracle_spec(rng, "noisy", cls, wk, "strong", n, rng.randint(2, 8), rng.randint(1, 3)))
+        for _ in range(3 if q else 12):      # outcome probabilities of 1e-12 .. 1e-16 next to one of order 1 (noise-free and barely noisy gate sets)
+            n = rng.randint(1, 3)
+            specs.append(oracle_spec(rng, "noisy", cls, rng.choice(["noisefree", "weak1e-8", "standard"]), "mild", n, rng.randint(0, 3), rng.randint(1, 2), psi="tiny"))
         for _ in range(0 if q else 3):       # Gaussian pulse: slow (numerical integrals)
             specs.append(oracle_spec(rng, "noisy", cls, "gauss", "strong", rng.randint(1, 3), rng.randint(0, 4), 1))
         for _ in range(10 if q else 60):     # deterministic, strongly non-unitary gate set
